@@ -49,7 +49,7 @@ pub fn all() -> Vec<Prop> {
             id: "C01",
             run: props::quant::run_c01,
             replayers: props::quant::replayers,
-            rule: "Random: proptest cases = element type (i8..u64, usize, N64; N32 in thorough) x 1..4-D shape x axis x layout (C/F/permuted/stepped/reversed/padded view into a sentinel parent) x values (tiny alphabet, small, one value repeated with a few others, huge base + small offsets, full width, type extremes; floats incl. signed zeros, subnormals, infinities, huge) x q recipes resolved against the lane length (0, 1, k/(N-1) and (k+1/2)/(N-1) each nudged by -2..2 ulp, 2^-1074, 1-2^-53, uniform) x 5 strategies x API (quantile_axis_mut, quantiles_axis_mut with 0..32 q, quantile_mut, quantiles_mut) x static/dynamic dimension x 1-2 pivot scripts (outputs must agree); distinct by hash of the whole case. Enumeration: all weak-order patterns of length <= 5 (quick) / 6 (thorough) x {i8,u16,N64} x 5 strategies x the boundary q set x ALL pivot sequences. Oracle: full sort of each lane, index = f64 product q*(N-1) (the exact-rational reading is also accepted when it differs), per-strategy acceptance in exact integer / dyadic arithmetic. Non-trivial: lane length >= 3, some lane not constant, and (lower index != higher index or q boundary-constructed). Cases matching the signature of the open known finding (Midpoint/Linear with a neighbour difference not representable in the element type) are counted as excluded, not judged.",
+            rule: "Random: proptest cases = element type (i8..u64, usize, N64; N32 in thorough) x 1..4-D shape x axis x layout (C/F/permuted/stepped/reversed/padded view into a sentinel parent) x values (tiny alphabet, small, one value repeated with a few others, huge base + small offsets, full width, type extremes; floats incl. signed zeros, subnormals, infinities, huge) x q recipes resolved against the lane length (0, 1, k/(N-1) and (k+1/2)/(N-1) each nudged by -2..2 ulp, 2^-1074, 1-2^-53, uniform) x 5 strategies x API (quantile_axis_mut, quantiles_axis_mut with 0..32 q, quantile_mut, quantiles_mut) x static/dynamic dimension x 1-2 pivot scripts (outputs must agree); distinct by hash of the whole case. A second random stream (\"quant-long\") uses lanes of 129..3000/5000 elements (half of them lengths b*k-1, b*k, b*k+1 for blocks b = 64..4096) in 1-2-D, request lists of up to 400 quantiles (both extremes only, extremes among others, runs of adjacent ranks, the upper / lower tail) and lanes arranged with the maximum first / the minimum last / monotone. Enumeration: all weak-order patterns of length <= 5 (quick) / 6 (thorough) x {i8,u16,N64} x 5 strategies x the boundary q set x ALL pivot sequences. Oracle: full sort of each lane, index = f64 product q*(N-1) (the exact-rational reading is also accepted when it differs), per-strategy acceptance in exact integer / dyadic arithmetic. Non-trivial: lane length >= 3, some lane not constant, and (lower index != higher index or q boundary-constructed). Cases matching the signature of the open known finding (Midpoint/Linear with a neighbour difference not representable in the element type) are counted as excluded, not judged.",
             assumptions: COMMON_ASSUMPTIONS,
             profiles_quick: BOTH,
             profiles_thorough: BOTH,
@@ -60,7 +60,7 @@ pub fn all() -> Vec<Prop> {
             id: "C02",
             run: props::sel::run_c02,
             replayers: props::sel::replayers,
-            rule: "Enumeration: every weak-order pattern (surjection onto 0..k) of the stated lengths x every in-range index (single) / every non-empty index subset in scrambled order with repeats (bulk) x EVERY pivot sequence, enumerated by DFS through the pivot hook; each (pattern, request, pivot sequence) triple is emitted exactly once, so enumerated cases are distinct by construction. Random: proptest cases (length <= 80/300, arrays dominated by one repeated value up to twice that, i64 with ties/extremes/sorted/reversed, strides +-1..3 inside a sentinel buffer, scripted pivots First/Last/Middle/Hash/real; the same oracles also on i128, BigInt and i16 elements), distinct by 64-bit hash of the whole case. Non-trivial: array length >= 2 (so at least one pivot is drawn) and, for bulk, a non-empty request.",
+            rule: "Enumeration: every weak-order pattern (surjection onto 0..k) of the stated lengths x every in-range index (single) / every non-empty index subset in scrambled order with repeats (bulk) x EVERY pivot sequence, enumerated by DFS through the pivot hook; each (pattern, request, pivot sequence) triple is emitted exactly once, so enumerated cases are distinct by construction. Random: proptest cases (length <= 80/300, arrays dominated by one repeated value up to twice that, i64 with ties/extremes/sorted/reversed, strides +-1..3 inside a sentinel buffer, scripted pivots First/Last/Middle/Hash/real; the same oracles also on i128, BigInt and i16 elements), distinct by 64-bit hash of the whole case. Two further random streams (\"select-long\", \"bulk-long\") use arrays of 257..5000/9000 elements (lengths around powers of two and block sizes; 4 / 40 / n/4 distinct values, full-width, permutations, monotone, one dominating value; extremes swapped to the ends in half of the cases) with requests for rank 0, n-1 or any rank (single) and 1..300 ranks as scattered lists, both extremes, consecutive blocks of up to 200 ranks, the k largest / smallest, or every rank (bulk). Non-trivial: array length >= 2 (so at least one pivot is drawn) and, for bulk, a non-empty request.",
             assumptions: COMMON_ASSUMPTIONS,
             profiles_quick: BOTH,
             profiles_thorough: BOTH,
@@ -71,7 +71,7 @@ pub fn all() -> Vec<Prop> {
             id: "C03",
             run: props::skip::run_c03,
             replayers: props::skip::replayers_c03,
-            rule: "proptest over every mutating entry point, each called on a view into a larger sentinel-filled parent (axis permutation, per-axis step 1..3, reversal, 0..2 guard elements in front/behind; 1-D routines on strided/offset/reversed views): partition_mut, get_from_sorted_mut, get_many_from_sorted_mut, quantile_mut, quantiles_mut, quantile_axis_mut, quantiles_axis_mut (11 Ord element types, 1-4-D, every axis), quantile_axis_skipnan_mut and map_axis_skipnan_mut with a recording closure (f32, f64, Option<i32>, Option<u8>, Option<i64>, Option<N64>, 1-3-D, every axis), remove_nan_mut directly and over lanes_mut of n-D arrays (all 14 impls), under scripted pivots. A further checker calls partition_mut, get_from_sorted_mut, get_many_from_sorted_mut, quantile_mut and quantile_axis_mut on one ArcArray handle of a shared buffer and on a CowArray borrowing another array: the other handle / the borrowed source must stay bit-identical. Oracle: every parent element outside the view is bit-identical to the sentinel afterwards, and every lane along the routine's axis holds the same multiset of bit patterns (missing values and NaN payloads included). Distinct by hash of the whole case. Non-trivial: the view is a strict subset of its parent and the data are not constant.",
+            rule: "proptest over every mutating entry point, each called on a view into a larger sentinel-filled parent (axis permutation, per-axis step 1..3, reversal, 0..2 guard elements in front/behind; 1-D routines on strided/offset/reversed views): partition_mut, get_from_sorted_mut, get_many_from_sorted_mut, quantile_mut, quantiles_mut, quantile_axis_mut, quantiles_axis_mut (11 Ord element types, 1-4-D, every axis), quantile_axis_skipnan_mut and map_axis_skipnan_mut with a recording closure (f32, f64, Option<i32>, Option<u8>, Option<i64>, Option<N64>, 1-3-D, every axis), remove_nan_mut directly and over lanes_mut of n-D arrays (all 14 impls), under scripted pivots. A further checker calls partition_mut, get_from_sorted_mut, get_many_from_sorted_mut, quantile_mut and quantile_axis_mut on one ArcArray handle of a shared buffer and on a CowArray borrowing another array: the other handle / the borrowed source must stay bit-identical. The quantile, skip-NaN, remove_nan_mut, selection and bulk-selection checkers also run on the long streams of C01/C14/C04/C02 (lanes of hundreds to thousands of elements, request lists of up to 400 quantiles / 300 ranks). Oracle: every parent element outside the view is bit-identical to the sentinel afterwards, and every lane along the routine's axis holds the same multiset of bit patterns (missing values and NaN payloads included). Distinct by hash of the whole case. Non-trivial: the view is a strict subset of its parent and the data are not constant.",
             assumptions: COMMON_ASSUMPTIONS,
             profiles_quick: BOTH,
             profiles_thorough: BOTH,
@@ -82,7 +82,7 @@ pub fn all() -> Vec<Prop> {
             id: "C04",
             run: props::nan::run_c04,
             replayers: props::nan::replayers,
-            rule: "Enumeration: all 2^L missing/non-missing masks for L <= 13 (quick) / 16 (thorough) x the 14 MaybeNan impls (f32, f64, Option of u8..u128, i8..i128, N32, N64) x strides {-3,-2,-1,1,2,3} x offsets {0,1,2} inside a sentinel buffer, values distinct (distinct by construction). Random: proptest masks up to 60/200 elements incl. first-only/last-only/alternating/dense/sparse, strides up to +-7, and lanes of 1-3-D arrays in generated layouts taken along every axis with lanes_mut (distinct by hash). Oracle order: metadata of the returned view (pointer, length, stride) must designate distinct element addresses of the input view BEFORE anything is dereferenced; then multiset, no missing element, count, determinism, idempotence, typed references. Non-trivial: at least one missing and one non-missing element and (|stride| != 1 or offset != 0).",
+            rule: "Enumeration: all 2^L missing/non-missing masks for L <= 13 (quick) / 16 (thorough) x the 14 MaybeNan impls (f32, f64, Option of u8..u128, i8..i128, N32, N64) x strides {-3,-2,-1,1,2,3} x offsets {0,1,2} inside a sentinel buffer, values distinct (distinct by construction). Random: proptest masks up to 60/200 elements incl. first-only/last-only/alternating/dense/sparse, strides up to +-7, and lanes of 1-3-D arrays in generated layouts taken along every axis with lanes_mut (distinct by hash). A further random stream (\"remove-long\") uses lanes of 300..6000/10000 elements (lengths around block sizes) whose missing values sit only in the last / first few elements, only at the very end / start, in a run of 500..1200 right before a present last element (or after a present first one), everywhere but one element, at one random position, at 10 / 50 / 90 % density, or in a missing tail of arbitrary length. Oracle order: metadata of the returned view (pointer, length, stride) must designate distinct element addresses of the input view BEFORE anything is dereferenced; then multiset, no missing element, count, determinism, idempotence, typed references. Non-trivial: at least one missing and one non-missing element and (|stride| != 1 or offset != 0).",
             assumptions: COMMON_ASSUMPTIONS,
             profiles_quick: BOTH,
             profiles_thorough: BOTH,
@@ -104,7 +104,7 @@ pub fn all() -> Vec<Prop> {
             id: "C06",
             run: props::means::run_c06,
             replayers: props::means::replayers_c06,
-            rule: "proptest: element type (f64, f32, i32, i64, u32, usize) x 1-3-D shape x axis x independent layouts for data and weights (two views of the same storage type into sentinel parents) x data class (mixed signs, halves with ties, common offset up to 2^20 with small spread, mixed magnitudes 2^+-40 / 2^+-12, positive) x weight class (quarters, wide ratios, uniform, zero at first/middle/last, sparse, uniformly tiny 2^-40..2^-90, full-mantissa weights in (0.1, 10); one case in eight makes the first element of every lane a far outlier of zero weight); signed weights for the sum forms. Oracle: inputs are dyadic rationals, so sum x, sum w x and their absolute counterparts are computed exactly with big integers; accepted error (2n+8)u * sum|terms| evaluated exactly (weighted_mean: cross-multiplied, no division); integers: exact equality incl. truncating division; per-axis forms lane by lane against the exact oracle; harmonic mean against 200-bit reciprocals, geometric mean against exp of a compensated f64 mean log. Distinct by hash. Non-trivial: n >= 3 and (non-uniform weights or mixed signs).",
+            rule: "proptest: element type (f64, f32, i32, i64, u32, usize) x 1-3-D shape x axis x independent layouts for data and weights (two views of the same storage type into sentinel parents) x data class (mixed signs, halves with ties, common offset up to 2^20 with small spread, mixed magnitudes 2^+-40 / 2^+-12, positive) x weight class (quarters, wide ratios, uniform, zero at first/middle/last, sparse, uniformly tiny 2^-40..2^-90, full-mantissa weights in (0.1, 10); one case in eight makes the first element of every lane a far outlier of zero weight); signed weights for the sum forms. A further stream (\"sums-long\") uses 600..20000/33000 elements (lengths around powers of two and block sizes) as one 1-D array or a long axis with 1..3 lanes; weights also at the bottom of the exponent range (subnormal sums). The geometric mean is also checked on data in which a quarter of the elements are subnormal. Oracle: inputs are dyadic rationals, so sum x, sum w x and their absolute counterparts are computed exactly with big integers; accepted error (2n+8)u * sum|terms| evaluated exactly (weighted_mean: cross-multiplied, no division); integers: exact equality incl. truncating division; per-axis forms lane by lane against the exact oracle; harmonic mean against 200-bit reciprocals, geometric mean against exp of a compensated f64 mean log. Distinct by hash. Non-trivial: n >= 3 and (non-uniform weights or mixed signs).",
             assumptions: NUM_ASSUMPTIONS,
             profiles_quick: BOTH,
             profiles_thorough: BOTH,
@@ -115,7 +115,7 @@ pub fn all() -> Vec<Prop> {
             id: "C07",
             run: props::means::run_c07,
             replayers: props::means::replayers_c07,
-            rule: "proptest over f64/f32 arrays as in C06 with ddof in {0, 1, 1/2, k/1024} and moment order 0..8 (0..12 thorough). Oracle: exact rational weighted variance (W Q - S1^2)/(W (W - ddof)) with the range-based budget gamma (W/D) R (R + max|x|) + |var| gamma W/D (R over the elements of non-zero weight; the documented update is one-pass), std judged on its square and as sqrt of the returned variance; exact central moments via n x_i - sum x with budget 2(2n+4p+8)u(A_p + p max|x| A_(p-1)); orders 0/1 bit-exact; skewness/kurtosis by first-order propagation; per-axis forms lane by lane; variance >= -tol. Domain: W - ddof > 2^-10 W. Distinct by hash. Non-trivial: resolving (budget <= 2^-10 of the exact value), n >= 3, non-constant, and (non-uniform weights or order >= 3 or max|x|^2 >= 2^20 var).",
+            rule: "proptest over f64/f32 arrays as in C06 with ddof in {0, 1, 1/2, k/1024} and moment order 0..8 (0..12 thorough). A further stream (\"var-long\") uses 600..13000/25000 elements (lengths around powers of two and block sizes, e.g. 4096k+1). Weight classes include weights at the bottom of the exponent range (k*2^-1023..2^-1045; ddof 0), for which the budget carries the explicit underflow term 4 n eta (1+R)^2 (1+W)/D. Oracle: exact rational weighted variance (W Q - S1^2)/(W (W - ddof)) with the range-based budget gamma (W/D) R (R + max|x|) + |var| gamma W/D (R over the elements of non-zero weight; the documented update is one-pass), std judged on its square and as sqrt of the returned variance; exact central moments via n x_i - sum x with budget 2(2n+4p+8)u(A_p + p max|x| A_(p-1)); orders 0/1 bit-exact; skewness/kurtosis by first-order propagation; per-axis forms lane by lane; variance >= -tol. Domain: W - ddof > 2^-10 W. Distinct by hash. Non-trivial: resolving (budget <= 2^-10 of the exact value), n >= 3, non-constant, and (non-uniform weights or order >= 3 or max|x|^2 >= 2^20 var).",
             assumptions: NUM_ASSUMPTIONS,
             profiles_quick: BOTH,
             profiles_thorough: BOTH,
@@ -126,7 +126,7 @@ pub fn all() -> Vec<Prop> {
             id: "C08",
             run: props::pairs::run_c08,
             replayers: props::pairs::replayers_c08,
-            rule: "proptest: f64/f32 matrices of 1..8 variables x 2..64 (f32: 32) observations, 2-D layouts (C, F/transposed, stepped, reversed, padded views), data classes as in C06, ddof in {0, 1, quarters, k+1/2 < n, n-1/2, n-1/4}, whole-matrix scales 2^+-120/300 and per-variable scales in 2^+-400. Oracle: exact sums of products of n x - sum x (big integers) for every entry; budget [gamma sum|dx_i||dx_j| + n e_i e_j + gamma(e_i sum|dx_j| + e_j sum|dx_i|)]/(n-ddof); symmetry and non-negative diagonal within the budget; exact rho from the exact sums with a range-based budget for each sigma^2 (ndarray's std_axis is one-pass), diagonal 1, |rho| <= 1, invariance under x -> a x + b (a > 0; each side against its own exact value, powers of two also against each other) and sign flip under negation of one variable. Distinct by hash. Non-trivial: resolving, >= 2 variables, >= 3 observations, non-square.",
+            rule: "proptest: f64/f32 matrices of 1..8 variables x 2..64 (f32: 32) observations, 2-D layouts (C, F/transposed, stepped, reversed, padded views), data classes as in C06, ddof in {0, 1, quarters, k+1/2 < n, n-1/2, n-1/4}, whole-matrix scales 2^+-120/300 and per-variable scales in 2^+-400. A further stream (\"cov-long\") uses 1..4 variables x 300..6000/12000 observations (f64; lengths around powers of two and block sizes). Oracle: exact sums of products of n x - sum x (big integers) for every entry; budget [gamma sum|dx_i||dx_j| + n e_i e_j + gamma(e_i sum|dx_j| + e_j sum|dx_i|)]/(n-ddof); symmetry and non-negative diagonal within the budget; exact rho from the exact sums with a range-based budget for each sigma^2 (ndarray's std_axis is one-pass), diagonal 1, |rho| <= 1, invariance under x -> a x + b (a > 0; each side against its own exact value, powers of two also against each other) and sign flip under negation of one variable. Distinct by hash. Non-trivial: resolving, >= 2 variables, >= 3 observations, non-square.",
             assumptions: NUM_ASSUMPTIONS,
             profiles_quick: BOTH,
             profiles_thorough: BOTH,
@@ -137,7 +137,7 @@ pub fn all() -> Vec<Prop> {
             id: "C09",
             run: props::pairs::run_c09,
             replayers: props::pairs::replayers_c09,
-            rule: "proptest: element type (i32, i64, f64, f32, BigInt) x 1-4-D shape x independent layouts for the two operands x ownership pairing (view/owned/shared for each operand) x values (integer magnitudes bounded from n so nothing overflows; floats as in C06; NaN only to exercise count_eq/count_neq) with a share of equal positions. Oracle: element-wise loop over logical indexes in exact arithmetic (i128 / dyadic): count_eq exact and count_eq+count_neq == len; sq_l2/l1/linf exact for integers, within (2n+8)u of the exact value for floats (linf: 2u); l2, mean_abs_err, mean_sq_err, root_mean_sq_err, PSNR recomputed from the exact base with the documented formula AND checked at f64 accuracy as the documented functions of the routine's own sq_l2/l1 results (float data also under a common scale of 2^+-100/300 and with a peak next to the r.m.s. error, i.e. PSNR near 0 dB); symmetry (exact for integers) and d(a,a) = 0. A second checker feeds two ALIASING views of one buffer (a square matrix and its transpose; a prefix and an every-second-element view: same first element, different strides) and demands the exact values. Distinct by hash. Non-trivial: >= 2 elements, >= 2 differing positions and operands with different layouts or ownership.",
+            rule: "proptest: element type (i32, i64, f64, f32, BigInt) x 1-4-D shape x independent layouts for the two operands x ownership pairing (view/owned/shared for each operand) x values (integer magnitudes bounded from n so nothing overflows; floats as in C06; NaN only to exercise count_eq/count_neq) with a share of equal positions. The peak passed to PSNR is positive in most cases and negative in a share of them (e.g. the minimum of a signed type: the documented function squares it). A further stream (\"dev-long\") uses 256..20000/40000 elements: a long leading (or trailing) axis with lengths around powers of two times small trailing axes 1,2,3,4,5,7,12,16. Oracle: element-wise loop over logical indexes in exact arithmetic (i128 / dyadic): count_eq exact and count_eq+count_neq == len; sq_l2/l1/linf exact for integers, within (2n+8)u of the exact value for floats (linf: 2u); l2, mean_abs_err, mean_sq_err, root_mean_sq_err, PSNR recomputed from the exact base with the documented formula AND checked at f64 accuracy as the documented functions of the routine's own sq_l2/l1 results (float data also under a common scale of 2^+-100/300 and with a peak next to the r.m.s. error, i.e. PSNR near 0 dB); symmetry (exact for integers) and d(a,a) = 0. A second checker feeds two ALIASING views of one buffer (a square matrix and its transpose; a prefix and an every-second-element view: same first element, different strides) and demands the exact values. Distinct by hash. Non-trivial: >= 2 elements, >= 2 differing positions and operands with different layouts or ownership.",
             assumptions: NUM_ASSUMPTIONS,
             profiles_quick: BOTH,
             profiles_thorough: BOTH,
@@ -148,7 +148,7 @@ pub fn all() -> Vec<Prop> {
             id: "C10",
             run: props::pairs::run_c10,
             replayers: props::pairs::replayers_c10,
-            rule: "proptest: f64/f32 arrays of 1-3 dimensions, p and q non-negative finite (k/4096, zeros, m 2^e), normalised or not, independent layouts for p and q, NaN placements in 10% of the cases; whole-array classes with entries 2^-300..2^-900 (|ln p| in the hundreds) and with q within 2^-20 of 1. Oracle: -sum x ln x, -sum p ln q, -sum p ln(q/p) by f64 libm with compensated summation, zero-p terms contributing exactly 0 (so p=0 with q=NaN or q=0 stays finite), budget 2(2n+8)u sum|terms| (KL: + sum|p|); p>0 with q=0 => +inf; result NaN <=> a NaN in a contributing term; identities KL(p,p) == 0 (NaN when p holds a NaN), p against a reversed-axes view of its own buffer for shapes that read the same backwards, |H(p,q) - H(p) - KL(p,q)| within the summed budgets, KL >= -tol and H(p) <= ln n + tol for normalised input (normalisation defect charged). Distinct by hash. Non-trivial: >= 3 elements, resolving, and (a zero in p or q, or different layouts).",
+            rule: "proptest: f64/f32 arrays of 1-3 dimensions, p and q non-negative finite (k/4096, zeros, m 2^e), normalised or not, independent layouts for p and q, NaN placements in 10% of the cases; whole-array classes with entries 2^-300..2^-900 (|ln p| in the hundreds) and with q within 2^-20 of 1. A further stream (\"ent-long\") uses 300..10000/20000 elements (1-D or a long axis times 1..4). Oracle: -sum x ln x, -sum p ln q, -sum p ln(q/p) by f64 libm with compensated summation, zero-p terms contributing exactly 0 (so p=0 with q=NaN or q=0 stays finite), budget 2(2n+8)u sum|terms| (KL: + sum|p|); p>0 with q=0 => +inf; result NaN <=> a NaN in a contributing term; identities KL(p,p) == 0 (NaN when p holds a NaN), p against a reversed-axes view of its own buffer for shapes that read the same backwards, |H(p,q) - H(p) - KL(p,q)| within the summed budgets, KL >= -tol and H(p) <= ln n + tol for normalised input (normalisation defect charged). Distinct by hash. Non-trivial: >= 3 elements, resolving, and (a zero in p or q, or different layouts).",
             assumptions: NUM_ASSUMPTIONS,
             profiles_quick: BOTH,
             profiles_thorough: BOTH,
@@ -159,7 +159,7 @@ pub fn all() -> Vec<Prop> {
             id: "C11",
             run: props::hist::run_c11,
             replayers: props::hist::replayers_c11,
-            rule: "proptest histories: grid of 1-3 axes, each axis an arbitrary edge list (unsorted, duplicates, 0/1/2..8 edges; i32, i64, N64; handed over as a Vec or as an owned Array1 that was sliced / inverted in place), 0..60 (quick) / 120 (thorough) add_observation operations with coordinates drawn from the edges themselves, their neighbours, below the first and beyond the last edge. Model: dictionary index-tuple -> count with bin lookup by linear scan. After EVERY step counts() is compared with the model at every index, its shape with grid.shape(), and the return value with the model (BinNotFound <=> no bin; a rejected insert changes nothing). Every second insert hands the point over as a reversed (stride -1) view. Then the same observations as a row-major matrix, a column-major matrix, a matrix view with a reversed column axis and in a permuted order through HistogramExt::histogram. Distinct by hash. Non-trivial: >= 2 axes with different bin counts, at least one accepted, one rejected and one on-an-edge observation.",
+            rule: "proptest histories: grid of 1-3 axes, each axis an arbitrary edge list (unsorted, duplicates, 0/1/2..8 edges; i32, i64, N64; handed over as a Vec or as an owned Array1 that was sliced / inverted in place), 0..60 (quick) / 120 (thorough) add_observation operations with coordinates drawn from the edges themselves, their neighbours, below the first and beyond the last edge. A further stream (\"hist-long\") runs histories of up to 3000/6000 observations. Model: dictionary index-tuple -> count with bin lookup by linear scan. After EVERY step counts() is compared with the model at every index, its shape with grid.shape(), and the return value with the model (BinNotFound <=> no bin; a rejected insert changes nothing). Every second insert hands the point over as a reversed (stride -1) view. Then the same observations as a row-major matrix, a column-major matrix, a matrix view with a reversed column axis and in a permuted order through HistogramExt::histogram. Distinct by hash. Non-trivial: >= 2 axes with different bin counts, at least one accepted, one rejected and one on-an-edge observation.",
             assumptions: COMMON_ASSUMPTIONS,
             profiles_quick: BOTH,
             profiles_thorough: BOTH,
@@ -170,7 +170,7 @@ pub fn all() -> Vec<Prop> {
             id: "C12",
             run: props::hist::run_c12,
             replayers: props::hist::replayers_c12,
-            rule: "proptest: element type (i32, i64, u32, usize within +-MAX/4; N64) x strategy (Sqrt, Rice, Sturges, FreedmanDiaconis, Auto) x data of length 0..400 (quick) / 4000 (thorough) from classes k/d grids (inexact in binary), large offset + spread down to single ulps, heavy ties (zero IQR) with outliers, moderate values, integers right below the type's maximum (max + width still representable), constant, empty; 1 column through from_array, 1-3 columns through GridBuilder followed by histogram. Domain precondition (counted as discarded): (max-min)/bin_width() <= 1e5. Termination is decided by a fuel budget of 64*(bins+2)+1000 iterations of the counting loop (hook), not by a clock. Oracle: empty => EmptyInput, constant => Strategy; accepted => first edge == min, equal widths (ints exactly, N64 within 2 ulp of max(largest |edge|, last edge - first edge): the documented min + i*width rounds the product at its own magnitude), last edge > max and last - max <= width, every observation in exactly one bin, histogram total == n, n_bins() == bins built (N64: when width >= 4 ulp of that magnitude). Distinct by hash. Non-trivial: accepted, >= 3 distinct values and (N64, or integer width >= 2, or span >= 2^20).",
+            rule: "proptest: element type (i32, i64, u32, usize within +-MAX/4; N64) x strategy (Sqrt, Rice, Sturges, FreedmanDiaconis, Auto) x data of length 0..400 (quick) / 4000 (thorough) from classes k/d grids (inexact in binary), large offset + spread down to single ulps, heavy ties (zero IQR) with outliers, moderate values, integers right below the type's maximum (max + width still representable), constant, empty; 1 column through from_array, 1-3 columns through GridBuilder followed by histogram. One class puts a far outlier (10^3..10^8 away) next to a narrow bulk, which makes the IQR-based strategies build tens of thousands of bins. Domain precondition (counted as discarded): (max-min)/bin_width() <= 3e5. Termination is decided by a fuel budget of 64*(bins+2)+1000 iterations of the counting loop (hook), not by a clock. Oracle: empty => EmptyInput, constant => Strategy; accepted => first edge == min, equal widths (ints exactly, N64 within 2 ulp of max(largest |edge|, last edge - first edge): the documented min + i*width rounds the product at its own magnitude), last edge > max and last - max <= width, every observation in exactly one bin, histogram total == n, n_bins() == bins built (N64: when width >= 4 ulp of that magnitude). Distinct by hash. Non-trivial: accepted, >= 3 distinct values and (N64, or integer width >= 2, or span >= 2^20).",
             assumptions: COMMON_ASSUMPTIONS,
             profiles_quick: BOTH,
             profiles_thorough: BOTH,
@@ -181,7 +181,7 @@ pub fn all() -> Vec<Prop> {
             id: "C13",
             run: props::hist::run_c13,
             replayers: props::hist::replayers_c13,
-            rule: "Enumeration: every sequence of length <= 6 (quick) / 7 (thorough) over the alphabet {0,2,..,2L} as edge input (every multiset and every order; via From<Vec> and From<Array1>, the owned Array1 being built from a Vec, sliced in place with a step, inverted in place or sliced in place to an offset sub-range), probed with every integer in -1..2L+1 (below, on, between, above). Random: i64/i32/u8/N64 edge lists up to 200 values, probes on and next to every edge; grids of 1-3 axes with every accessor (ndim, shape, projections, index_of, index incl. out-of-range tuples). Oracle: BTreeSet for the edges, linear scan e_i <= v < e_(i+1) for lookup, mutual consistency of indices_of / index_of / range_of / index. Non-trivial: >= 3 distinct edges and a probe strictly inside or on an interior edge (edges); >= 2 axes with >= 3 edges each and a point inside (grid).",
+            rule: "Enumeration: every sequence of length <= 6 (quick) / 7 (thorough) over the alphabet {0,2,..,2L} as edge input (every multiset and every order; via From<Vec> and From<Array1>, the owned Array1 being built from a Vec, sliced in place with a step, inverted in place or sliced in place to an offset sub-range), probed with every integer in -1..2L+1 (below, on, between, above). Random: i64/i32/u8/N64 edge lists up to 200 values, probes on and next to every edge; grids of 1-3 axes with every accessor (ndim, shape, projections, index_of, index incl. out-of-range tuples). A further stream (\"edges-long\") uses 300..5000/10000 edge values (unsorted with few / many duplicates, increasing, decreasing) probed at both extremes, at 60 random positions and around 20 of the edges. Oracle: BTreeSet for the edges, linear scan e_i <= v < e_(i+1) for lookup, mutual consistency of indices_of / index_of / range_of / index. Non-trivial: >= 3 distinct edges and a probe strictly inside or on an interior edge (edges); >= 2 axes with >= 3 edges each and a point inside (grid).",
             assumptions: COMMON_ASSUMPTIONS,
             profiles_quick: BOTH,
             profiles_thorough: BOTH,
@@ -192,7 +192,7 @@ pub fn all() -> Vec<Prop> {
             id: "C14",
             run: props::skip::run_c14,
             replayers: props::skip::replayers_c14,
-            rule: "proptest: element type (f32, f64, Option<i32>, Option<u8>, Option<i64>, Option<N64>) x 1-3-D shape x axis x layout (view into a sentinel parent) x values (tiny alphabet / small / wide) x missing mask (random density, none, all, first-only, last-only, alternating, dense) x q recipe x strategy x pivot script. One case exercises min/max_skipnan, argmin/argmax_skipnan, fold_skipnan (with a non-trivial init), visit_skipnan, indexed_fold_skipnan, fold_axis_skipnan, map_axis_skipnan_mut (recording closure) and quantile_axis_skipnan_mut; each is compared with the plain operation on the harness-filtered data (quantiles through the C01 oracle on the filtered, sorted lane; all-missing lane => missing value; nothing left => missing value / EmptyInput). Distinct by hash. Non-trivial: some but not all values missing, lane length >= 3, and the axis is not the contiguous one or the layout is non-standard.",
+            rule: "proptest: element type (f32, f64, Option<i32>, Option<u8>, Option<i64>, Option<N64>) x 1-3-D shape x axis x layout (view into a sentinel parent) x values (tiny alphabet / small / wide) x missing mask (random density, none, all, first-only, last-only, alternating, dense) x q recipe x strategy x pivot script. One case exercises min/max_skipnan, argmin/argmax_skipnan, fold_skipnan (with a non-trivial init), visit_skipnan, indexed_fold_skipnan, fold_axis_skipnan, map_axis_skipnan_mut (recording closure) and quantile_axis_skipnan_mut; each is compared with the plain operation on the harness-filtered data (quantiles through the C01 oracle on the filtered, sorted lane; all-missing lane => missing value; nothing left => missing value / EmptyInput). Two further streams: \"skip-long\" (lanes of 300..2500/4000 elements, 1-3 lanes, missing values only in the tail / head, runs of 500..1200 missing values next to a present end element, all but one missing, sparse / dense) and \"skip-wide\" (Option<i128> / Option<u128> with magnitudes up to 2^120, compared directly with quantile_axis_mut on the filtered lane of i128 / u128 under the same pivots: the 64-bit value model of the quantile oracle does not apply there). Distinct by hash. Non-trivial: some but not all values missing, lane length >= 3, and the axis is not the contiguous one or the layout is non-standard.",
             assumptions: COMMON_ASSUMPTIONS,
             profiles_quick: BOTH,
             profiles_thorough: BOTH,
@@ -236,7 +236,7 @@ pub fn all() -> Vec<Prop> {
             id: "C18",
             run: props::bulk::run_c18,
             replayers: props::bulk::replayers,
-            rule: "proptest, four checkers: (a) quantiles_axis_mut / quantiles_mut with request lists of 0..32 q (any order, forced repeats, boundary-constructed q sharing lower/higher indexes) on arrays/axes/layouts/strategies/pivot scripts as in C01: slice j must equal the single-quantile call for q_j on a fresh copy (==); (b) get_many_from_sorted_mut vs get_from_sorted_mut per requested index; (c) central_moments(p)[k] vs central_moment(k) bit for bit, p in 0..10, f32/f64, 1-3-D layouts; (d) weighted_sum/mean/var/std_axis vs the whole-array routine on each lane (integers exact and equal to the i128 sum; floats within the summation budget; bit-identity is reported as a class). Distinct by hash of the whole case. Non-trivial: (a) >= 2 requests with a repeat or a shared index and lane length >= 3; (b) >= 2 requests with a repeat, length >= 3; (c) order >= 2, >= 3 non-constant elements; (d) >= 2-D, lane length >= 3, non-uniform weights.",
+            rule: "proptest, four checkers: (a) quantiles_axis_mut / quantiles_mut with request lists of 0..32 q (any order, forced repeats, boundary-constructed q sharing lower/higher indexes) on arrays/axes/layouts/strategies/pivot scripts as in C01: slice j must equal the single-quantile call for q_j on a fresh copy (==); (b) get_many_from_sorted_mut vs get_from_sorted_mut per requested index; (c) central_moments(p)[k] vs central_moment(k) bit for bit, p in 0..10, f32/f64, 1-3-D layouts; (d) weighted_sum/mean/var/std_axis vs the whole-array routine on each lane (integers exact and equal to the i128 sum; floats within the summation budget; bit-identity is reported as a class). Checkers (a), (b) and (d) also run on long streams: lanes of up to 2500/5000 elements with up to 400 requests (both extremes, runs of adjacent ranks, tails; extremes placed at the lane ends), arrays of up to 3000/6000 elements with up to 300 requested ranks, and weighted per-axis routines on lanes of 600..5000/12000 elements. Distinct by hash of the whole case. Non-trivial: (a) >= 2 requests with a repeat or a shared index and lane length >= 3; (b) >= 2 requests with a repeat, length >= 3; (c) order >= 2, >= 3 non-constant elements; (d) >= 2-D, lane length >= 3, non-uniform weights.",
             assumptions: COMMON_ASSUMPTIONS,
             profiles_quick: BOTH,
             profiles_thorough: BOTH,
@@ -247,7 +247,7 @@ pub fn all() -> Vec<Prop> {
             id: "C19",
             run: props::order::run_c19,
             replayers: props::order::replayers,
-            rule: "proptest lanes of every Ord element type (values as in C01; 64-bit integers below 2^52) with 1..13 boundary-constructed q plus 0 and 1, sorted; for each of the 5 strategies: non-decreasing in q, Q(0)=min, Q(1)=max, within [min,max]; Lower <= Nearest/Midpoint/Linear <= Higher at equal q; all five equal when (N-1)q is integral (required when the IEEE product and the exact rational product agree on that, since C01 accepts either reading of the documented index); equal results on a generated permutation of the lane; Lower/Higher/Nearest commute with a generated strictly increasing relabelling table. Float Midpoint/Linear order relations get a slack of 2 ulp of the largest lane magnitude. Enumeration: ALL permutations of a distinct and a tied i32 lane of length <= 7 (quick) / 8 (thorough). Distinct by hash (random) / by construction (permutations). Non-trivial: >= 3 distinct values and (a q pair straddling/touching an index boundary, or a non-identity permutation, or a relabelling).",
+            rule: "proptest lanes of every Ord element type (values as in C01; 64-bit integers below 2^52) with 1..13 boundary-constructed q plus 0 and 1, sorted; for each of the 5 strategies: non-decreasing in q, Q(0)=min, Q(1)=max, within [min,max]; Lower <= Nearest/Midpoint/Linear <= Higher at equal q; all five equal when (N-1)q is integral (required when the IEEE product and the exact rational product agree on that, since C01 accepts either reading of the documented index); equal results on a generated permutation of the lane; Lower/Higher/Nearest commute with a generated strictly increasing relabelling table. Float Midpoint/Linear order relations get a slack of 2 ulp of the largest lane magnitude. A further stream (\"order-long\") uses lanes of 129..3000/5000 elements (lengths around powers of two and block sizes). Enumeration: ALL permutations of a distinct and a tied i32 lane of length <= 7 (quick) / 8 (thorough). Distinct by hash (random) / by construction (permutations). Non-trivial: >= 3 distinct values and (a q pair straddling/touching an index boundary, or a non-identity permutation, or a relabelling).",
             assumptions: COMMON_ASSUMPTIONS,
             profiles_quick: BOTH,
             profiles_thorough: BOTH,
